@@ -304,9 +304,10 @@ def applyM (F : FloatOps) (mech : Bool) (self : HVal) (op : MOp) (es : List (Val
   | .setIndex i k v =>
     if numNeg F i || es.length ≤ numToNat F i then (es, .err .index)
     else
-      match OMap.indexAssign (insM F mech) (numToNat F i) k v es with
-      | some es' => (es', .ok .null)
-      | none => (es, .panic)
+      match OMap.indexAssignChecked (getM F mech es.length) (insM F mech) (numToNat F i) k v es with
+      | .replaced es' => (es', .ok .null)
+      | .keyInUse _ => (es, .err .index)   -- "the key is already in use by the entry at index j"
+      | .panic => (es, .panic)
 
 /-! ### commands on the heap -/
 
